@@ -63,6 +63,7 @@ Inductive op :=
   | OTryReserve (r : nat) (n : N)
   | OShrink (r : nat)
   | OCapacity (r : nat)
+  | ODebug (r : nat)
   | OFuse (n : nat) (o : op).
 
 Inductive out :=
@@ -387,6 +388,15 @@ Definition step1 (fz : option nat) (m : machine) (o : op) : machine * out :=
           (* capacity() >= len(): the only thing every allocator guarantees *)
           (m, OutBool (bool_decide (N.of_nat (length (smap s))
                                     <= N.max (cap s) (N.of_nat (length (smap s))))%N))
+      | None => inv end
+  | ODebug r =>
+      (* fmt::Debug (store.rs): one map entry per heap slot, [map.get_index(i).unwrap()];
+         reported: the number of entries printed *)
+      match getreg m r with
+      | Some (_, s) =>
+          if forallb (fun i => bool_decide (i < length (smap s))) (heap s)
+          then (m, OutNat (length (heap s)))
+          else (m, OutFault Panic)
       | None => inv end
   | OFuse _ _ => inv
   end.
